@@ -724,7 +724,7 @@ func genCatalogModel(r *common.Rng) (*model, string) {
 	if len(m.Fields) < 6 && r.Chance(10) {
 		m.add(r, nil, randKind(r), pickMode(r)) // no hydraide tag
 	}
-	if len(m.Fields) < 6 && r.Chance(5) { // duplicate of an existing tag
+	if len(m.Fields) > 0 && len(m.Fields) < 6 && r.Chance(5) { // duplicate of an existing tag
 		src := m.Fields[r.Intn(len(m.Fields))]
 		if src.Tag != nil {
 			m.add(r, sp(*src.Tag), randKind(r), pickMode(r))
